@@ -12,7 +12,7 @@ from ..astutil import text, short, endswith, calls_in
 from ..absdom import IntSet, cond_set, INF
 from ..dataflow import DefUse
 from .. import events as E
-from ._h_F import ifn, Res, res_of, call_arg, canon, atoms, is_none
+from ._h_F import ifn, Res, res_of, call_arg, canon, atoms, is_none, alias_group, need
 
 EXPLANATION = (
   "Decides, by interpreting the id-filling loop of doBulkAddOrReplace over an interval domain, "
@@ -67,6 +67,15 @@ class FillLoop(object):
     self.body = {n.id for n in cfg.nodes if n.stmt is not None and id(n.stmt) in inner}
     self.slot = "%s[%s]" % (self.filled, self.ivar)
     self._flow = None
+    # other names of the same list (e.g. the caller's name when the loop came from a helper)
+    self.names = alias_group(r, self.filled)
+
+  def is_filled(self, e, nid):
+    """Does expression e at node nid denote the filled list?"""
+    if isinstance(e, ast.Name) and e.id in self.names:
+      return True
+    v = self.r.expand(e, nid)
+    return isinstance(v, ast.Name) and v.id in self.names
 
   # ---------------------------------------------------------------- data-flow over the loop body
   def flow(self):
@@ -255,18 +264,22 @@ def r2_distinct(run, w, fn, fl):
       continue        # extra actions produced by the conversion, not the record action
     def has_filled(x):
       ids = call_arg(x, 1, "row_ids")
-      return isinstance(ids, ast.Name) and ids.id == filled
+      return isinstance(ids, ast.Name) and ids.id in fl.names
     ok = any(isinstance(x, ast.Call) and has_filled(x) for cv in conv
              for a in list(cv.args) + [k.value for k in cv.keywords] for x in ast.walk(a))
     run.ob(R2, fn.qualname, "_do_doc_action(<converted ActionType(table_id, <filled>, ...)>)",
            "the record action is built with the checked id list", ok, fi=fn.fi, node=c)
-  rets = r.returns()
+  rets = r.returns(expand=False)
+  need(rets, "the value doBulkAddOrReplace returns", fn)
   run.ob(R2, fn.qualname, "return <filled>", "the ids returned are the ids given to the "
-         "action", bool(rets) and all(text(v) == filled for (n, v) in rets) and
+         "action", all(fl.is_filled(v, n.id) for (n, v) in rets) and
          not r.falls_off_end() and not r.bare_returns(), fi=fn.fi)
   # nothing rebinds or mutates the list apart from its definition and the fill loop
   firstdef = r.defs.get(filled, set())
-  own = r.defs.get(filled, set()) | r.du.muts.get(filled, set())
+  own = set()
+  for nm in fl.names:
+    own |= r.du.muts.get(nm, set())
+  own |= r.defs.get(filled, set())
   extra = own - firstdef - fl.body
   run.ob(R2, fn.qualname, "<filled> written only by its definition and the fill loop",
          "the checked list is not changed after the check", not extra and len(firstdef) == 1 and
@@ -379,11 +392,12 @@ def r4_counter(run, w, fn, fl):
   run.ob(R4, nr.qualname, "return self.row_ids.max() + 1", "next id is one past the largest "
          "existing id", ok, fi=nr.fi)
   # temp-id map is recorded from the original and the filled lists (C26 relies on it too)
-  ok = any(endswith(nm, "summary.update_new_rows_map") and
-           [text(a) for a in c.args] and
-           text(call_arg(c, 1, "temp_row_ids") or c.args[0]) == fn.fi.params()[2] and
-           text(call_arg(c, 2, "final_row_ids") or c.args[0]) == filled
-           for (n, c, nm) in fn.calls())
+  maps = [(n, c) for (n, c, nm) in fn.calls() if endswith(nm, "update_new_rows_map")]
+  need(maps, "the call recording the temporary-id map (update_new_rows_map)", fn)
+  ok = all(call_arg(c, 1, "temp_row_ids") is not None and
+           call_arg(c, 2, "final_row_ids") is not None and
+           r.norm(call_arg(c, 1, "temp_row_ids"), n.id) == fn.fi.params()[2] and
+           fl.is_filled(call_arg(c, 2, "final_row_ids"), n.id) for (n, c) in maps)
   run.ob(R4, fn.qualname, "update_new_rows_map(table_id, row_ids, <filled>)",
          "negative placeholders are mapped to the ids actually allocated", ok, fi=fn.fi)
 
